@@ -149,65 +149,11 @@ pub fn __set_first<'a>(s: &'a HashSet<BTreeSet<u32>>) -> (r: Option<&'a BTreeSet
         r is None ==> forall|k: ISet<u32>| !s@.contains(k),
 { unimplemented!() }
 
-// ---- interning pools ---------------------------------------------------------------------
-#[verifier::external_body]
-pub struct InpInternPool { _p: core::marker::PhantomData<()> }
-
-impl View for InpInternPool {
-    type V = Seq<Inp>;
-    uninterp spec fn view(&self) -> Seq<Inp>;
-}
-
-pub open spec fn pool_wf(p: Seq<Inp>) -> bool {
-    forall|i: int, j: int| 0 <= i < j < p.len() ==> p[i] != p[j]
-}
-
-impl InpInternPool {
-    #[verifier::external_body]
-    pub fn intern(&mut self, value: Inp) -> (r: InpId)
-        requires pool_wf(old(self)@)
-        ensures
-            pool_wf(final(self)@),
-            old(self)@.contains(value) ==> final(self)@ == old(self)@,
-            !old(self)@.contains(value) ==> final(self)@ == old(self)@.push(value),
-    { unimplemented!() }
-
-    #[verifier::external_body]
-    pub fn pairs(&self) -> (r: Vec<(InpId, &Inp)>)
-        ensures
-            r@.len() == self@.len(),
-            forall|i: int| 0 <= i < r@.len() ==> *(#[trigger] r@[i]).1 == self@[i] && r@[i].0 == id_of(i),
-    { unimplemented!() }
-}
-
-impl Default for InpInternPool {
-    #[verifier::external_body]
-    fn default() -> (r: InpInternPool)
-        ensures r@ == Seq::<Inp>::empty()
-    { unimplemented!() }
-}
-
-/// the i-th symbol id (InpId's field is private: dfa.rs numbers the symbols of the pool 0, 1, ..)
-pub closed spec fn id_of(i: int) -> InpId { InpId(i as u32) }
-
-#[verifier::external_body]
-pub struct DFAInternPool { _p: core::marker::PhantomData<()> }
-
-#[verifier::external_body]
-pub struct RegexInternPool { _p: core::marker::PhantomData<()> }
-
 impl<K, V> HashMap<K, V> {
     #[verifier::external_body]
     pub fn insert(&mut self, k: K, v: V) -> (r: Option<V>)
         ensures final(self)@ == old(self)@.insert(k, v)
     { unimplemented!() }
-}
-
-/// distinct indices below 2^32 are distinct ids
-pub proof fn lemma_id_of_inj(i: int, j: int)
-    requires 0 <= i <= u32::MAX, 0 <= j <= u32::MAX, id_of(i) == id_of(j)
-    ensures i == j
-{
 }
 
 /// `c += 1` on the state-id counter. ASSUMPTION (machine arithmetic treated as mathematical): the
